@@ -533,6 +533,44 @@ pub fn run(run: &Run) {
                 run.violation(&format!("[{}] {s:?}: {msg}", f.name), json!({"op": "parse_sequence", "format": f.name, "inputs": [s, s]}), &[]);
             }
         });
+        // invisible / special code points at the very start, the very end and both ends of every
+        // alphabet input: the string routes (parse, parse_multi) and the character-vector route
+        // (parse_chars) must still agree, whatever the outcome is
+        let specials = ['\u{feff}', '\u{200b}', '\u{a0}', '\u{0}', '\u{c}', '\r', '\n', '\t', '\u{2028}', '\u{85}', '\u{3000}', '\u{202e}', '\u{fffd}', '\u{e0001}'];
+        let mut special_inputs: Vec<String> = vec![];
+        for (_, base) in &alpha {
+            for c in specials {
+                special_inputs.push(format!("{c}{base}"));
+                special_inputs.push(format!("{base}{c}"));
+                special_inputs.push(format!("{c}{base}{c}"));
+            }
+        }
+        run.count(&format!("special_code_point_inputs_{}", f.name), special_inputs.len() as u64);
+        run.add_distinct(special_inputs.len() as u64);
+        special_inputs.par_iter().for_each(|s| {
+            run.eval(3);
+            let a = outcome(&ops::parse_enum(&f, s));
+            let b = quiet_catch(AssertUnwindSafe(|| outcome(&f.e.parse_chars::<Narsese>(s.chars().collect()).map_err(|e| e.to_string()))));
+            // after the same text without the special characters, and before it
+            let plain: String = s.chars().filter(|c| !specials.contains(c)).collect();
+            let m = quiet_catch(AssertUnwindSafe(|| f.e.parse_multi([plain.as_str(), s.as_str(), plain.as_str(), s.as_str()]).into_iter().map(|r| outcome(&r.map_err(|e| e.to_string()))).collect::<Vec<_>>()));
+            let p = outcome(&ops::parse_enum(&f, &plain));
+            let bad = match (&b, &m) {
+                (Ok(b), Ok(m)) => {
+                    if *b != a {
+                        Some(format!("parse_chars gives {} but parse gives {}", show_outcome(b), show_outcome(&a)))
+                    } else if m.len() != 4 || m[0] != p || m[1] != a || m[2] != p || m[3] != a {
+                        Some(format!("parse_multi([plain, s, plain, s]) gives {:?} but parse gives {} for plain and {} for s", m.iter().map(show_outcome).collect::<Vec<_>>(), show_outcome(&p), show_outcome(&a)))
+                    } else {
+                        None
+                    }
+                }
+                _ => Some("parse_chars / parse_multi panics".to_string()),
+            };
+            if let Some(msg) = bad {
+                run.violation(&format!("[{}] {s:?}: {msg}", f.name), json!({"op": "parse_sequence", "format": f.name, "inputs": [plain, s, plain, s]}), &[]);
+            }
+        });
         // parse_chars == parse, parse twice
         for (_, s) in &alpha {
             run.eval(2);
